@@ -8,6 +8,7 @@ open Total_base
 open Total_msgs
 open Total_codec
 open Total_cap
+open Total_cap2
 
 (* ---- values ---- *)
 let hex_plain (l : coq_N list) : string =
@@ -103,6 +104,34 @@ let init () =
       (match res with Ok m -> r := m | _ -> ());
       last := (match res with Ok m -> show_msg m | Err e -> "err " ^ dec_of_n e | Panic -> "panic")) a;
     !last);
+  (* spare-capacity models of Model/Total_cap2.v with the very tail the implementation had behind the slice.
+     c03ft: on the fast path the unescaped buffer is data[1:len-1]: its spare capacity is the closing delimiter
+     followed by the tail (on the slow path it is a bytes.Buffer's array; the model's answer does not depend on it) *)
+  register "c03ft" (fun a -> match a with
+    | [h; tl] ->
+      (match decode_chk_cap (bytes_of_hex h) (n_of_int 126 :: bytes_of_hex tl) with
+       | Ok m -> show_msg m | Err e -> "err " ^ dec_of_n e | Panic -> "panic")
+    | _ -> "bad-args");
+  register "c03rt" (fun a -> match a with
+    | [h; tl] ->
+      (match rtp_decode_cap Jt1078.fresh_pkt (bytes_of_hex h) (bytes_of_hex tl) with
+       | Ok (p, rest) -> "ok " ^ show_pkt p ^ " rest=" ^ hex_of_bytes rest
+       | Err e -> "err " ^ dec_of_n e | Panic -> "panic")
+    | _ -> "bad-args");
+  register "c03lt" (fun a -> match a with
+    | [k; h; tl] ->
+      let b = bytes_of_hex h and t = bytes_of_hex tl in
+      (match k with
+       | "0200" -> Drv_c08.res_s Drv_c08.dump0200 (t0200_cap Location.fresh_0200 b t)
+       | "0704" -> Drv_c08.res_s Drv_c08.dump0704 (t0704_cap Location.fresh_0704 b t)
+       | "0801" -> Drv_c08.res_s Drv_c08.dump0801 (t0801_cap Location.fresh_0801 b t)
+       | _ -> "bad-kind")
+    | _ -> "bad-args");
+  register "c03et" (fun a -> match a with
+    | [k; d; id; c; tl] ->
+      Drv_c08.ext_res (ext_cap (Drv_c08.kind_of k) (LocationExt.fresh_ext (n_of_int (int_of_string d)))
+                         (n_of_int (int_of_string id)) (bytes_of_hex c) (bytes_of_hex tl))
+    | _ -> "bad-args");
   (* c03rtp <hex> | c03rseq <hex1> ... <hexN> : one Packet *)
   let rtp_seq a =
     let r = ref Jt1078.fresh_pkt and last = ref "none" in
